@@ -2,7 +2,7 @@
 
 use crate::interp::{Cfg, Interp};
 use crate::ops::*;
-use crate::seqx::{Built, Finish, Profile, Seed};
+use crate::seqx::{Built, Finish, Flags, Profile, Seed};
 use crate::types::*;
 
 pub const CFG0: Cfg = Cfg::new(512, Some(32 * 1024), 0);
@@ -271,6 +271,7 @@ pub fn c04_profiles(quick: bool) -> Vec<(Profile, u64)> {
                     alphabet: Box::new(alphabet),
                     finish: FINISH_FULL,
                     accounting: true,
+                    flags: Flags::default(),
                     extra: None,
                 };
                 out.push((p, u64::MAX));
@@ -316,6 +317,12 @@ pub fn data_body(kind: char, n: u64) -> Vec<Op> {
             b.push(Op::RetainIn { slot: 1, lo: B::In(Val::U(2000)), hi: B::Un, pred: Pred::Nothing });
             b.push(Op::Insert { slot: 1, k: Val::U(900 + n), v: Val::B(payload(n, 8)) });
             b.push(Op::Insert { slot: 0, k: Val::U(900 + n), v: Val::B(payload(n, 8)) });
+        }
+        'B' => {
+            for j in 0..2u64 {
+                b.push(Op::Insert { slot: 0, k: Val::U(3000 + n * 10 + j), v: Val::B(payload(n * 10 + j, 3000)) });
+                b.push(Op::Insert { slot: 1, k: Val::U(3000 + n * 10 + j), v: Val::B(payload(n * 10 + j, 20)) });
+            }
         }
         'O' => {
             b.push(Op::Insert { slot: 0, k: Val::U(10), v: Val::B(payload(100 + n, 180)) });
@@ -644,6 +651,7 @@ pub fn c09_profiles(quick: bool) -> Vec<(Profile, u64)> {
                         alphabet: Box::new(alphabet),
                         finish: FINISH_FULL,
                         accounting: true,
+                        flags: Flags::default(),
                         extra: None,
                     },
                     u64::MAX,
@@ -775,6 +783,7 @@ pub fn c17_profiles(quick: bool) -> Vec<(Profile, u64)> {
                 alphabet: Box::new(|it: &Interp, _d, _b| c17_alphabet(it)),
                 finish: FINISH_FULL,
                 accounting: true,
+                flags: Flags::default(),
                 extra: Some(Box::new(|it: &mut Interp, _b| drain_and_check(it, 6))),
             },
             u64::MAX,
@@ -940,10 +949,732 @@ pub fn c18_profiles(quick: bool) -> Vec<(Profile, u64)> {
                     alphabet: Box::new(alphabet),
                     finish: FINISH_FULL,
                     accounting: true,
+                    flags: Flags::default(),
                     extra: None,
                 },
                 u64::MAX,
             ));
+        }
+    }
+    out
+}
+
+// ------------------------------------------------------------------------ transaction level
+
+#[derive(Clone, Debug)]
+pub struct TxnFlavor {
+    pub modes: Vec<CommitMode>,
+    pub data: Vec<char>,
+    pub aborts: bool,
+    pub readers: bool,
+    pub owned: bool,
+    pub esave: bool,
+    pub psave: bool,
+    pub nondurable_restore: bool,
+    pub compact: bool,
+    pub reopen: bool,
+    pub check: bool,
+}
+
+/// alphabet of whole transactions, reader and savepoint lifetimes; enabled between transactions
+pub fn txn_alphabet(it: &Interp, d: usize, f: &TxnFlavor) -> Vec<Op> {
+    if it.in_txn() {
+        return vec![];
+    }
+    let n = (it.cps.len() as u64) * 10 + d as u64 + 1;
+    let mut a = vec![];
+    for c in &f.data {
+        for m in &f.modes {
+            a.push(txn(*m, data_body(*c, n)));
+        }
+    }
+    if f.aborts {
+        a.push(txn_end(CommitMode::OnePhase, data_body('S', n), End::Abort));
+        a.push(txn_end(CommitMode::OnePhase, data_body('B', n), End::Drop));
+    }
+    if f.readers {
+        for r in 0..2u8 {
+            if !it.reader_live(r) {
+                a.push(Op::RBegin { r });
+                break;
+            }
+        }
+        for r in 0..2u8 {
+            if it.reader_live(r) {
+                a.push(Op::RDrop { r });
+                if f.owned {
+                    if it.reader_has_handle(r) && !it.reader_has_owned(r) {
+                        a.push(Op::ROwnedRange { r, name: "t".into(), lo: B::Un, hi: B::Un });
+                    }
+                    if it.reader_has_owned(r) {
+                        a.push(Op::RIterStep { r, back: false });
+                        a.push(Op::RIterStep { r, back: true });
+                        if it.reader_has_handle(r) {
+                            a.push(Op::RDropHandle { r });
+                        }
+                    }
+                }
+            }
+        }
+    }
+    if f.esave {
+        for s in 0..2u8 {
+            if !it.esave_live(s) {
+                a.push(txn(CommitMode::OnePhase, vec![Op::ESave { slot: s }]));
+                a.push(txn_end(CommitMode::OnePhase, vec![Op::ESave { slot: s }], End::Abort));
+                let mut b = vec![Op::ESave { slot: s }];
+                b.extend(data_body('S', n));
+                a.push(txn(CommitMode::NonDurable, b));
+                break;
+            }
+        }
+        for s in 0..2u8 {
+            if it.esave_live(s) {
+                a.push(Op::ESaveDrop { slot: s });
+                a.push(txn(CommitMode::OnePhase, vec![Op::RestoreE { slot: s }]));
+                a.push(txn_end(CommitMode::OnePhase, vec![Op::RestoreE { slot: s }], End::Abort));
+                if f.nondurable_restore {
+                    a.push(txn(CommitMode::NonDurable, vec![Op::RestoreE { slot: s }]));
+                }
+            }
+        }
+    }
+    if f.psave {
+        let np = it.committed.psave.len();
+        if np < 2 {
+            a.push(txn(CommitMode::OnePhase, vec![Op::PSave]));
+        }
+        for nth in 0..np.min(2) as u8 {
+            a.push(txn(CommitMode::OnePhase, vec![Op::RestoreP { nth }]));
+            a.push(txn_end(CommitMode::OnePhase, vec![Op::RestoreP { nth }], End::Abort));
+            a.push(txn(CommitMode::OnePhase, vec![Op::PDel { nth }]));
+        }
+    }
+    if f.compact {
+        a.push(Op::Compact);
+    }
+    if f.reopen {
+        a.push(Op::Reopen);
+    }
+    if f.check {
+        a.push(Op::Check);
+    }
+    a
+}
+
+pub fn txn_seeds(cfgs: &[Cfg], with_psave: bool) -> Vec<Seed> {
+    let mut v = vec![];
+    for cfg in cfgs {
+        v.push(Seed { name: format!("small/p{}c{}r{:?}", cfg.page_size, cfg.cache, cfg.region_size), cfg: *cfg, setup: c01_setup(false, false, false), pre: vec![] });
+        // fragmented multi-page state with big values, then half of them removed
+        let mut s = c01_setup(false, false, false);
+        s.push(txn(CommitMode::OnePhase, data_body('B', 50)));
+        s.push(txn(CommitMode::OnePhase, data_body('B', 51)));
+        s.push(txn(CommitMode::OnePhase, data_body('D', 52)));
+        if with_psave {
+            s.push(txn(CommitMode::OnePhase, vec![Op::PSave]));
+            s.push(txn(CommitMode::OnePhase, data_body('S', 53)));
+        }
+        v.push(Seed { name: format!("frag{}/p{}c{}r{:?}", if with_psave { "+psave" } else { "" }, cfg.page_size, cfg.cache, cfg.region_size), cfg: *cfg, setup: s, pre: vec![] });
+    }
+    v
+}
+
+pub const FINISH_TXN: Finish =
+    Finish { verify_slots: false, commit_and_dump: true, decode: true, reopen: true, check_integrity: true };
+
+fn end_cleanup(it: &mut Interp) -> Result<(), String> {
+    // drop readers and ephemeral savepoints, delete persistent ones, then everything must drain
+    for r in 0..2u8 {
+        if it.reader_live(r) {
+            it.step(&Op::RDrop { r })?;
+        }
+    }
+    for s in 0..2u8 {
+        if it.esave_live(s) {
+            it.step(&Op::ESaveDrop { slot: s })?;
+        }
+    }
+    while !it.committed.psave.is_empty() {
+        it.step(&txn(CommitMode::OnePhase, vec![Op::PDel { nth: 0 }]))?;
+    }
+    drain_and_check(it, 6)
+}
+
+pub fn c06_profiles(quick: bool) -> Vec<(Profile, u64)> {
+    let f = TxnFlavor {
+        modes: vec![CommitMode::OnePhase, CommitMode::NonDurable, CommitMode::QuickRepair],
+        data: vec!['S', 'B', 'D'],
+        aborts: true,
+        readers: true,
+        owned: false,
+        esave: true,
+        psave: true,
+        nondurable_restore: true,
+        compact: true,
+        reopen: true,
+        check: true,
+    };
+    let cfgs = if quick { vec![CFG0] } else { vec![CFG0, CFG_CACHE, CFG_ONE_REGION] };
+    let depth = if quick { 3 } else { 4 };
+    let ff = f.clone();
+    vec![(
+        Profile {
+            name: format!("ownership/d{depth}"),
+            seeds: txn_seeds(&cfgs, true),
+            depth,
+            alphabet: Box::new(move |it: &Interp, d, _b| txn_alphabet(it, d, &ff)),
+            finish: Finish { reopen: false, ..FINISH_TXN },
+            accounting: true,
+            flags: Flags { auto_rcheck: true, ..Flags::default() },
+            extra: Some(Box::new(|it: &mut Interp, _b| end_cleanup(it))),
+        },
+        u64::MAX,
+    )]
+}
+
+pub fn c07_profiles(quick: bool) -> Vec<(Profile, u64)> {
+    let f = TxnFlavor {
+        modes: vec![CommitMode::OnePhase, CommitMode::NonDurable, CommitMode::QuickRepair],
+        data: vec!['S', 'B', 'D'],
+        aborts: false,
+        readers: false,
+        owned: false,
+        esave: true,
+        psave: true,
+        nondurable_restore: true,
+        compact: false,
+        reopen: true,
+        check: false,
+    };
+    let cfgs = if quick { vec![CFG0] } else { vec![CFG0, CFG_CACHE] };
+    let depth = if quick { 3 } else { 5 };
+    let ff = f.clone();
+    vec![(
+        Profile {
+            name: format!("savepoints/d{depth}"),
+            seeds: txn_seeds(&cfgs, true),
+            depth,
+            alphabet: Box::new(move |it: &Interp, d, _b| txn_alphabet(it, d, &ff)),
+            finish: FINISH_TXN,
+            accounting: true,
+            flags: Flags::default(),
+            extra: Some(Box::new(|it: &mut Interp, _b| end_cleanup(it))),
+        },
+        if quick { 400_000 } else { 6_000_000 },
+    )]
+}
+
+pub fn c02_profiles(quick: bool) -> Vec<(Profile, u64)> {
+    let f = TxnFlavor {
+        modes: vec![CommitMode::OnePhase, CommitMode::NonDurable, CommitMode::TwoPhase],
+        data: vec!['S', 'B', 'D', 'O'],
+        aborts: true,
+        readers: true,
+        owned: true,
+        esave: true,
+        psave: false,
+        nondurable_restore: true,
+        compact: true,
+        reopen: false,
+        check: false,
+    };
+    let cfgs = if quick { vec![CFG0, CFG_CACHE8K] } else { vec![CFG0, CFG_CACHE8K, CFG_CACHE] };
+    let depth = if quick { 3 } else { 5 };
+    let ff = f.clone();
+    vec![(
+        Profile {
+            name: format!("snapshots/d{depth}"),
+            seeds: txn_seeds(&cfgs, false),
+            depth,
+            alphabet: Box::new(move |it: &Interp, d, _b| txn_alphabet(it, d, &ff)),
+            finish: Finish { reopen: false, check_integrity: false, ..FINISH_TXN },
+            accounting: true,
+            flags: Flags { auto_rcheck: true, ..Flags::default() },
+            extra: Some(Box::new(|it: &mut Interp, _b| {
+                // a final look through every reader that is still alive, then release
+                for r in 0..2u8 {
+                    if it.reader_has_handle(r) {
+                        it.step(&Op::RCheck { r })?;
+                    }
+                    while it.reader_has_owned(r) {
+                        if it.step(&Op::RIterStep { r, back: false })? == "none" {
+                            break;
+                        }
+                    }
+                }
+                end_cleanup(it)
+            })),
+        },
+        if quick { 500_000 } else { 8_000_000 },
+    )]
+}
+
+pub fn c13_profiles(quick: bool) -> Vec<(Profile, u64)> {
+    let f = TxnFlavor {
+        modes: vec![CommitMode::OnePhase, CommitMode::NonDurable],
+        data: vec!['S', 'B', 'D', 'G', 'F'],
+        aborts: false,
+        readers: true,
+        owned: false,
+        esave: true,
+        psave: true,
+        nondurable_restore: false,
+        compact: true,
+        reopen: true,
+        check: false,
+    };
+    let cfgs = if quick { vec![CFG0] } else { vec![CFG0, CFG_CACHE, CFG_ONE_REGION] };
+    let depth = if quick { 2 } else { 4 };
+    let ff = f.clone();
+    // multi-region, fragmented seeds: big values interleaved with small ones, half removed
+    let mut seeds = vec![];
+    for cfg in &cfgs {
+        let mut s = c01_setup(true, false, false);
+        s.push(txn(CommitMode::OnePhase, data_body('B', 60)));
+        s.push(txn(CommitMode::OnePhase, data_body('F', 61)));
+        s.push(txn(CommitMode::OnePhase, data_body('B', 62)));
+        seeds.push(Seed { name: format!("fragmented/p{}c{}r{:?}", cfg.page_size, cfg.cache, cfg.region_size), cfg: *cfg, setup: s.clone(), pre: vec![] });
+        s.push(txn(CommitMode::NonDurable, data_body('S', 63)));
+        seeds.push(Seed { name: format!("fragmented+pending/p{}c{}r{:?}", cfg.page_size, cfg.cache, cfg.region_size), cfg: *cfg, setup: s, pre: vec![] });
+    }
+    vec![(
+        Profile {
+            name: format!("compaction/d{depth}"),
+            seeds,
+            depth,
+            alphabet: Box::new(move |it: &Interp, d, _b| txn_alphabet(it, d, &ff)),
+            finish: FINISH_TXN,
+            accounting: true,
+            flags: Flags::default(),
+            extra: Some(Box::new(|it: &mut Interp, _b| {
+                // compaction terminates: repeated calls reach `false`, each call not growing the file
+                for r in 0..2u8 {
+                    if it.reader_live(r) {
+                        it.step(&Op::RDrop { r })?;
+                    }
+                }
+                for s in 0..2u8 {
+                    if it.esave_live(s) {
+                        it.step(&Op::ESaveDrop { slot: s })?;
+                    }
+                }
+                while !it.committed.psave.is_empty() {
+                    it.step(&txn(CommitMode::OnePhase, vec![Op::PDel { nth: 0 }]))?;
+                }
+                let mut calls = 0;
+                loop {
+                    let o = it.step(&Op::Compact)?;
+                    calls += 1;
+                    if o == "compacted=false" {
+                        break;
+                    }
+                    if calls > 8 {
+                        return Err(format!("compact() still reports progress after {calls} consecutive calls"));
+                    }
+                }
+                it.step(&Op::Reopen)?;
+                drain_and_check(it, 6)
+            })),
+        },
+        u64::MAX,
+    )]
+}
+
+// ------------------------------------------------------------------------------------------ C05
+
+const MM_SPEC: Spec = mm(T::U64, T::U64);
+
+pub fn c05_alphabet(it: &Interp, d: usize) -> Vec<Op> {
+    if !it.in_txn() {
+        return vec![];
+    }
+    let n = d as u64 + 1;
+    let ends = vec![
+        Op::Seq(vec![Op::Abort, Op::Begin]),
+        Op::Seq(vec![Op::DropTxn, Op::Begin]),
+        Op::Seq(vec![Op::Commit, Op::Begin]),
+    ];
+    if it.poisoned() {
+        return ends;
+    }
+    let mut a = vec![];
+    if !it.slot_open(0) {
+        a.push(Op::Open { slot: 0, name: "t".into(), spec: TU });
+    } else {
+        a.push(Op::Insert { slot: 0, k: Val::U(1000 + n), v: Val::B(payload(n, 40)) });
+        a.push(Op::Insert { slot: 0, k: Val::U(4000 + n), v: Val::B(payload(n, 3000)) });
+        a.push(Op::Remove { slot: 0, k: Val::U(20) });
+        a.push(Op::Retain { slot: 0, pred: Pred::PanicAt(1) });
+        a.push(Op::ExtractIf { slot: 0, pred: Pred::PanicAt(2), consume: Consume::All });
+        a.push(Op::Close { slot: 0 });
+        a.push(Op::RenameSlot { slot: 0, to: "x".into() });
+    }
+    if !it.slot_open(1) {
+        a.push(Op::Open { slot: 1, name: "m".into(), spec: MM_SPEC });
+    } else {
+        a.push(Op::MInsert { slot: 1, k: Val::U(7), v: Val::U(n) });
+        for i in 0..1 {
+            let _ = i;
+        }
+        a.push(Op::MRemoveAll { slot: 1, k: Val::U(5), consume: Consume::First });
+        a.push(Op::DeleteSlot { slot: 1 });
+    }
+    a.push(Op::Rename { from: "u".into(), to: "y".into(), kind: Kind::Table });
+    a.push(Op::Delete { name: "u".into(), kind: Kind::Table });
+    a.push(Op::Delete { name: "m".into(), kind: Kind::Multimap });
+    if it.esave_live(1) {
+        a.push(Op::ESaveDrop { slot: 1 });
+    } else {
+        a.push(Op::ESave { slot: 1 });
+    }
+    a.push(Op::PSave);
+    a.push(Op::PDel { nth: 0 });
+    if !it.slot_open(0) && !it.slot_open(1) {
+        if it.esave_live(0) {
+            a.push(Op::RestoreE { slot: 0 });
+        }
+        if !it.current_model().psave.is_empty() {
+            a.push(Op::RestoreP { nth: 0 });
+        }
+    }
+    a.push(Op::SetDur(Dur::None));
+    a.extend(ends);
+    a
+}
+
+pub fn c05_profiles(quick: bool) -> Vec<(Profile, u64)> {
+    let cfgs = if quick { vec![CFG0] } else { vec![CFG0, CFG_CACHE] };
+    let depth = if quick { 3 } else { 4 };
+    let mut seeds = vec![];
+    for cfg in &cfgs {
+        // tables t,u, a multimap with an inline key and a subtree key, one persistent savepoint,
+        // then a later commit; variants: an ephemeral savepoint alive, a pending non-durable commit
+        let mut s = c01_setup(false, false, false);
+        let mut mmb = vec![Op::Open { slot: 0, name: "m".into(), spec: MM_SPEC }];
+        for i in 0..60u64 {
+            mmb.push(Op::MInsert { slot: 0, k: Val::U(5), v: Val::U(i) });
+        }
+        mmb.push(Op::MInsert { slot: 0, k: Val::U(7), v: Val::U(1) });
+        s.push(txn(CommitMode::OnePhase, mmb));
+        s.push(txn(CommitMode::OnePhase, vec![Op::PSave]));
+        s.push(txn(CommitMode::OnePhase, data_body('B', 70)));
+        seeds.push(Seed { name: format!("psave/c{}", cfg.cache), cfg: *cfg, setup: s.clone(), pre: vec![Op::Begin] });
+        seeds.push(Seed {
+            name: format!("psave+esave/c{}", cfg.cache),
+            cfg: *cfg,
+            setup: s.clone(),
+            pre: vec![txn(CommitMode::OnePhase, vec![Op::ESave { slot: 0 }]), txn(CommitMode::OnePhase, data_body('S', 71)), Op::Begin],
+        });
+        seeds.push(Seed {
+            name: format!("psave+pending-nondurable/c{}", cfg.cache),
+            cfg: *cfg,
+            setup: s,
+            pre: vec![txn(CommitMode::NonDurable, data_body('S', 72)), txn(CommitMode::NonDurable, data_body('D', 73)), Op::Begin],
+        });
+    }
+    vec![(
+        Profile {
+            name: format!("abandoned-transactions/d{depth}"),
+            seeds,
+            depth,
+            alphabet: Box::new(|it: &Interp, d, _b| c05_alphabet(it, d)),
+            finish: Finish { verify_slots: true, commit_and_dump: false, decode: false, reopen: false, check_integrity: false },
+            accounting: true,
+            flags: Flags { abort_set_equality: true, ..Flags::default() },
+            extra: Some(Box::new(|it: &mut Interp, _b| {
+                // abandon whatever is still open, then the next transaction must see the last
+                // commit point and be able to commit
+                if it.in_txn() {
+                    it.step(&Op::Abort)?;
+                }
+                it.verify_committed()?;
+                it.step(&txn(CommitMode::OnePhase, data_body('S', 99)))?;
+                it.verify_committed()?;
+                Ok(())
+            })),
+        },
+        u64::MAX,
+    )]
+}
+
+// ------------------------------------------------------------------------------------------ C10
+
+pub fn c10_profiles(quick: bool) -> Vec<(Profile, u64)> {
+    // the decoder runs after EVERY durable commit of these runs (not only at the end)
+    let mut out = vec![];
+    let mut add = |mut ps: Vec<(Profile, u64)>, keep: usize| {
+        ps.truncate(keep);
+        for (mut p, cap) in ps {
+            p.flags.decode_every_commit = true;
+            p.name = format!("c10/{}", p.name);
+            out.push((p, cap));
+        }
+    };
+    let shrink = |mut v: Vec<(Profile, u64)>, by: usize| {
+        for (p, _) in v.iter_mut() {
+            p.depth = p.depth.saturating_sub(by).max(1);
+        }
+        v
+    };
+    if quick {
+        add(shrink(c04_profiles(true), 1), 2);
+        add(shrink(c09_profiles(true), 1), 2);
+        add(shrink(c17_profiles(true), 1), 1);
+        add(shrink(c18_profiles(true), 1), 1);
+        add(shrink(c07_profiles(true), 1), 1);
+    } else {
+        add(c04_profiles(true), 13);
+        add(c09_profiles(true), 8);
+        add(c17_profiles(true), 1);
+        add(c18_profiles(true), 3);
+        add(c07_profiles(true), 1);
+    }
+    out
+}
+
+// --------------------------------------------------------------- crash histories for C07 / C13
+
+pub fn c07_histories(quick: bool) -> Vec<History> {
+    let mut out = vec![];
+    let cfgs = if quick { vec![CFG_ONE_REGION] } else { vec![CFG_ONE_REGION, CFG0] };
+    let syms: Vec<Vec<&str>> = if quick {
+        vec![vec!["Pc", "S1"], vec!["Pc", "S1", "Pr"], vec!["Pc", "Sn", "Pd"], vec!["E"], vec!["Pc", "S1", "Pc", "Pr"]]
+    } else {
+        let base = ["Pc", "Pr", "Pd", "S1", "Sn", "Sq", "E", "D1", "R"];
+        let mut v = vec![];
+        for a in base {
+            for b in base {
+                for c in base {
+                    v.push(vec![a, b, c]);
+                }
+            }
+        }
+        v
+    };
+    for cfg in cfgs {
+        for s in &syms {
+            let mut has = false;
+            let mut steps = vec![];
+            let mut ok = true;
+            for (i, sym) in s.iter().enumerate() {
+                if !sym_enabled(sym, has) {
+                    ok = false;
+                    break;
+                }
+                if *sym == "Pc" {
+                    has = true;
+                }
+                if *sym == "Pd" {
+                    has = false;
+                }
+                steps.push(c01_symbol(sym, i as u64 + 1));
+            }
+            if !ok {
+                continue;
+            }
+            out.push(History {
+                name: format!("sp/p{}r{:?}:{}", cfg.page_size, cfg.region_size, s.join(",")),
+                cfg,
+                setup: c01_setup(false, false, false),
+                steps,
+                close: false,
+                depth2: 1,
+            });
+        }
+    }
+    out
+}
+
+pub fn c13_histories(quick: bool) -> Vec<History> {
+    let mut out = vec![];
+    let cfgs = if quick { vec![CFG_ONE_REGION] } else { vec![CFG_ONE_REGION, CFG0, CFG_ONE_REGION_CACHE] };
+    for cfg in cfgs {
+        let mut setup = c01_setup(true, false, false);
+        setup.push(txn(CommitMode::OnePhase, data_body('B', 60)));
+        setup.push(txn(CommitMode::OnePhase, data_body('F', 61)));
+        setup.push(txn(CommitMode::OnePhase, data_body('B', 62)));
+        let variants: Vec<(&str, Vec<Op>)> = if quick {
+            vec![("compact", vec![Op::Compact])]
+        } else {
+            vec![
+                ("compact", vec![Op::Compact]),
+                ("compact,compact", vec![Op::Compact, Op::Compact]),
+                ("Sn,compact", vec![c01_symbol("Sn", 1), Op::Compact]),
+                ("D1,compact,S1", vec![c01_symbol("D1", 1), Op::Compact, c01_symbol("S1", 2)]),
+            ]
+        };
+        for (n, steps) in variants {
+            out.push(History {
+                name: format!("cmp/p{}r{:?}c{}:{n}", cfg.page_size, cfg.region_size, cfg.cache),
+                cfg,
+                setup: setup.clone(),
+                steps,
+                close: false,
+                depth2: 0,
+            });
+        }
+    }
+    out
+}
+
+// ------------------------------------------------------------------------------------------ C08
+
+pub fn c08_histories(quick: bool) -> Vec<History> {
+    let mut out = vec![];
+    let seeds: Vec<(&str, Cfg, bool, bool, bool)> = if quick {
+        vec![("fresh/1region", CFG_ONE_REGION, false, false, false), ("psave+pending/1region+cache", CFG_ONE_REGION_CACHE, false, true, true)]
+    } else {
+        vec![
+            ("fresh/1region", CFG_ONE_REGION, false, false, false),
+            ("psave+pending/1region+cache", CFG_ONE_REGION_CACHE, false, true, true),
+            ("full+psave/32k", CFG0, true, true, false),
+            ("fresh/32k+cache8k", CFG_CACHE8K, false, false, false),
+        ]
+    };
+    // op-level bodies that poison on partial failure (C05's storage-error clause)
+    let special: Vec<(&str, Op)> = vec![
+        ("rename", txn(CommitMode::OnePhase, vec![Op::Rename { from: "t".into(), to: "x".into(), kind: Kind::Table }])),
+        ("delete", txn(CommitMode::OnePhase, vec![Op::Delete { name: "u".into(), kind: Kind::Table }])),
+        (
+            "cursor-run",
+            txn(
+                CommitMode::OnePhase,
+                vec![
+                    Op::Open { slot: 0, name: "t".into(), spec: TU },
+                    Op::CurUpper { slot: 0, b: B::Un },
+                    Op::Seq((0..12u64).map(|i| Op::CurInsBefore { k: Val::U(9000 + i), v: Val::B(payload(i, 60)) }).collect()),
+                    Op::CurClose,
+                ],
+            ),
+        ),
+        (
+            "cursor-run-drop",
+            txn(
+                CommitMode::OnePhase,
+                vec![
+                    Op::Open { slot: 0, name: "t".into(), spec: TU },
+                    Op::CurLower { slot: 0, b: B::Un },
+                    Op::Seq((0..12u64).rev().map(|i| Op::CurInsAfter { k: Val::U(i % 9), v: Val::B(payload(i, 60)) }).take(1).collect()),
+                    Op::CurDrop,
+                ],
+            ),
+        ),
+        ("retain", txn(CommitMode::OnePhase, vec![Op::Open { slot: 0, name: "t".into(), spec: TU }, Op::Retain { slot: 0, pred: Pred::Even }])),
+        ("reader", Op::Seq(vec![Op::RBegin { r: 0 }, c01_symbol("S1", 1), Op::RCheck { r: 0 }, Op::RDrop { r: 0 }])),
+    ];
+    for (sname, cfg, full, psave, pending) in seeds {
+        let setup = c01_setup(full, psave, pending);
+        let singles: Vec<&str> = if quick {
+            vec!["S1", "Sn", "S2", "Sq", "F1", "A", "Pc", "E", "C"]
+        } else {
+            vec!["S1", "Sn", "S2", "Sq", "G1", "F1", "O1", "D1", "Gn", "A", "Pc", "Pr", "Pd", "E", "C"]
+        };
+        for s in &singles {
+            if !sym_enabled(s, psave) {
+                continue;
+            }
+            out.push(History { name: format!("{sname}:{s}"), cfg, setup: setup.clone(), steps: vec![c01_symbol(s, 1)], close: true, depth2: 0 });
+        }
+        for (n, op) in &special {
+            out.push(History { name: format!("{sname}:{n}"), cfg, setup: setup.clone(), steps: vec![op.clone()], close: true, depth2: 0 });
+        }
+        if psave {
+            out.push(History {
+                name: format!("{sname}:restore-psave"),
+                cfg,
+                setup: setup.clone(),
+                steps: vec![txn(CommitMode::OnePhase, vec![Op::RestoreP { nth: 0 }])],
+                close: true,
+                depth2: 0,
+            });
+        }
+        let pairs: Vec<(&str, &str)> = if quick {
+            vec![("Sn", "S1"), ("S1", "F1")]
+        } else {
+            let core = ["S1", "Sn", "Sq", "F1", "G1", "C"];
+            let mut v = vec![];
+            for a in core {
+                for b in core {
+                    v.push((a, b));
+                }
+            }
+            v
+        };
+        for (a, b) in pairs {
+            out.push(History {
+                name: format!("{sname}:{a},{b}"),
+                cfg,
+                setup: setup.clone(),
+                steps: vec![c01_symbol(a, 1), c01_symbol(b, 2)],
+                close: true,
+                depth2: 0,
+            });
+        }
+    }
+    out
+}
+
+// ------------------------------------------------------------------------------------------ C11
+
+pub fn c11_histories(quick: bool) -> Vec<History> {
+    let mut out = vec![];
+    let seeds: Vec<(&str, Cfg, bool, bool, bool)> = if quick {
+        vec![("fresh/1region", CFG_ONE_REGION, false, false, false), ("full+psave/32k", CFG0, true, true, false)]
+    } else {
+        vec![
+            ("fresh/1region", CFG_ONE_REGION, false, false, false),
+            ("fresh/32k", CFG0, false, false, false),
+            ("full+psave/32k", CFG0, true, true, false),
+            ("pending/1region+cache", CFG_ONE_REGION_CACHE, true, false, true),
+        ]
+    };
+    let singles: Vec<&str> = if quick { vec!["Sq", "Sn", "F1", "Pc", "C"] } else { vec!["S1", "Sq", "Sn", "S2", "F1", "G1", "Gq", "Fq", "Pc", "Pr", "Pd", "E", "C", "D1"] };
+    let pairs: Vec<(&str, &str)> = if quick {
+        vec![("Sq", "Sn"), ("Sn", "Sq"), ("F1", "Sq")]
+    } else {
+        let core = ["Sq", "Sn", "S1", "F1", "G1", "C", "Pc"];
+        let mut v = vec![];
+        for a in core {
+            for b in core {
+                v.push((a, b));
+            }
+        }
+        v
+    };
+    for (sname, cfg, full, psave, pending) in seeds {
+        let setup = c01_setup(full, psave, pending);
+        let mut add = |syms: Vec<&str>, close: bool| {
+            let mut has = psave;
+            let mut steps = vec![];
+            for (i, s) in syms.iter().enumerate() {
+                if !sym_enabled(s, has) {
+                    return;
+                }
+                if *s == "Pc" {
+                    has = true;
+                }
+                if *s == "Pd" {
+                    has = false;
+                }
+                steps.push(c01_symbol(s, i as u64 + 1));
+            }
+            out.push(History {
+                name: format!("{sname}:{}{}", syms.join(","), if close { ",close" } else { "" }),
+                cfg,
+                setup: setup.clone(),
+                steps,
+                close,
+                depth2: 0,
+            });
+        };
+        add(vec![], true);
+        for s in &singles {
+            add(vec![s], false);
+            add(vec![s], true);
+        }
+        for (a, b) in &pairs {
+            add(vec![a, b], true);
         }
     }
     out
